@@ -23,7 +23,7 @@ Traces == JsonDeserialize(IOEnv.TRACE_FILE)
 TraceConfigs == [t \in 1..Len(Traces) |-> Traces[t].cfg]        \* substituted for Configs
 
 VARIABLES tid, i, mismatch
-tvars == <<cid, gpos, dir, pl, has, op, tid, i, mismatch>>
+tvars == <<cid, gpos, dir, pl, has, ai, op, held, tid, i, mismatch>>
 
 TInit == /\ Init /\ tid = cid /\ i = 1 /\ mismatch = <<>>
 
@@ -55,10 +55,11 @@ Diff(o, e) ==
 
 \* the recorder only issues calls the machine has a transition for
 WellFormed(o) ==
-  \/ o.k = "T" /\ o.n >= 1
+  \/ o.k = "T" /\ o.n >= 0
   \/ o.k = "F" /\ o.n >= 1 /\ Len(SelIdx(o)) >= 1
   \/ o.k = "Gen" /\ C.kind = "tdl" /\ o.n >= 1
   \/ o.k = "Dir" /\ dir # (o.n = 1)
+  \/ o.k = "Ant" /\ C.kind \in {"tdl", "su"} /\ o.n \in 1..Len(C.ants) /\ o.n # ai
   \/ o.k = "PL" /\ C.kind \in {"su", "mu"} /\ pl # o.n /\ o.n \in 0..Len(C.pls)
 
 Note(m) == IF m = <<>> THEN TRUE ELSE EmitCase([tid |-> m[1], ev |-> m[2], field |-> m[3]])
